@@ -73,7 +73,10 @@ SCENARIO("jet_act") {
   out("plain", q); out_primal("primal", q0); out("Jm", Jm); out_dual("dual", R);
 }
 SCENARIO("jet_rplus_rminus") {
-  G X = sym_group<G>("x"), Y = sym_group<G>("y"); T t = sym_tangent<T>("t"); JJ(Ja); JJ(Jb); JJ(Ka); JJ(Kb);
+  // X = Y*Z with Z an input of its own: every pair (X, Y) arises exactly once, and the relative element Z = Y^-1 X,
+  // whose angle selects log's small-angle branch inside rminus, is a variable (see C05's rminus_rel)
+  G Y = sym_group<G>("y"), Zr = sym_group<G>("z"); G X = Y.compose(Zr);
+  T t = sym_tangent<T>("t"); JJ(Ja); JJ(Jb); JJ(Ka); JJ(Kb);
   G Z = X.rplus(t, Ja, Jb); T u = X.rminus(Y, Ka, Kb);
   GJ Xj = lift(X), Yj = lift(Y); TJ tj = lift(t);
   GJ Z0 = Xj.rplus(tj); TJ u0 = Xj.rminus(Yj);
